@@ -358,7 +358,7 @@ func (trafficmgrEngine) Coq(inAny any, obsAny any) string {
 		kind := map[string]string{"do": "KDo", "finalising": "KFinalising", "restore_stable": "KRestoreStable", "patch_stable": "KPatchStable",
 			"restore_gateway": "KRestoreGateway", "remove_canary": "KRemoveCanary", "route_new": "KRouteNew"}[o.Kind]
 		return emit.App("TCall", kind, emit.App("Build_tctx", emit.Bool(in.Refs), emit.Bool(in.ZeroGrace), coqTMStrategy(o.Strategy),
-			emit.Str(o.StableRev), emit.Str(o.CanaryRev), lu, "true", emit.Bool(o.Fail)))
+			emit.Str(o.StableRev), emit.Str(o.CanaryRev), lu, "true", emit.Bool(o.Fail), "false"))
 	})
 	steps := emit.ListOf(obs.Steps, func(s TMStep) string {
 		pend := emit.ListOf(s.Pending, func(p string) string { return tmActionNames[p] })
